@@ -1,13 +1,19 @@
 /-
 Line-protocol driver for the lifecycle model (C16).  `lake env lean --run DriverLifecycle.lean`.
 
-  lnew <l><c><b><d><s> <t> <v>   fault flags (load, connect, body, disconnect, final save: 0/1), start time,
-                                 registry version held by the file
+  lnew <l><c><b><d><s>[<x>] <t> <v>
+                                 fault flags (load, connect, body raises, disconnect, final save: 0/1, and an
+                                 optional sixth flag: the body ends by cancellation of the task running the
+                                 context; five flags = not cancelled), start time, registry version held by the file
   lstep main | saver0 | saver1 | tick <d> | mutate
   lrun <choice>,<choice>,…       several choices at once (tick as `tick:<d>`)
 
 Every line answers with the state:
   main=… saver=… cancel=… now=… t0=… reg=… file=… starts=… loaded=… started=… entered=… disc=… final=… outcome=…
+
+`outcome=cancelled` is the body's cancellation propagating out of the context statement (`Exc.bodyCancel`,
+only possible with the sixth flag); a `CancelledError` leaked from awaiting the cancelled saver
+(`Exc.cancelled`) is shown as `saverCancelLeaked`, which no observation of the harness is ever equal to.
 -/
 import AioMySensors.Model.Lifecycle
 
@@ -27,7 +33,8 @@ def showMain : MainPc → String
 
 def showExc : Option Exc → String
   | none => "none" | some .loadErr => "loadErr" | some .connectErr => "connectErr" | some .bodyErr => "bodyErr"
-  | some .disconnectErr => "disconnectErr" | some .saveErr => "saveErr" | some .cancelled => "cancelled"
+  | some .disconnectErr => "disconnectErr" | some .saveErr => "saveErr" | some .cancelled => "saverCancelLeaked"
+  | some .bodyCancel => "cancelled"
 
 def showFile : FileSt → String
   | .holds v => s!"holds:{v}" | .truncated => "truncated"
@@ -40,13 +47,19 @@ def showSys (s : Sys) : String :=
   s!"started={b01 s.started} entered={b01 s.entered} disc={b01 s.disconnectTried} final={b01 s.finalSaveDone} " ++
   s!"alive={b01 s.saver.alive} outcome={showExc s.outcome}"
 
-def parseFaults (s : String) : Option Faults :=
-  match s.toList with
+def parseFaults5 (cs : List Char) (cancel : Bool) : Option Faults :=
+  match cs with
   | [a, b, c, d, e] =>
     if [a, b, c, d, e].all (fun x => x = '0' ∨ x = '1') then
       some { loadFails := a = '1', connectFails := b = '1', bodyRaises := c = '1', disconnectFails := d = '1',
-             finalSaveFails := e = '1' }
+             finalSaveFails := e = '1', bodyCancelled := cancel }
     else none
+  | _ => none
+
+def parseFaults (s : String) : Option Faults :=
+  match s.toList with
+  | [a, b, c, d, e] => parseFaults5 [a, b, c, d, e] false
+  | [a, b, c, d, e, x] => if x = '0' ∨ x = '1' then parseFaults5 [a, b, c, d, e] (x = '1') else none
   | _ => none
 
 def parseChoice (toks : List String) : Option Choice :=
